@@ -174,13 +174,23 @@ func appCases(args []string) {
 			w.Emit(appCase{ID: id, Mode: "c10", In: tr.Ints(big), Display: false, Record: true, Chunk: 4096, Seed: rng.Int63(), Cls: "200 kB"})
 		}
 		// a live source with a non-zero end-of-file tolerance that drops out for a moment twice (end-of-file, read time-out)
-		for k, cls := range []string{"transient-eof", "transient-timeout"} {
+		for k, cls := range []string{"transient-eof", "transient-timeout", "transient-twice-eof"} {
 			var in []byte
 			for j := 0; j < 9; j++ {
 				in = append(in, gen.Frame(rng, gen.TypeClass(rng, j+k), 10+rng.Intn(80), 0)...)
 			}
 			id++
 			w.Emit(appCase{ID: id, Mode: "c10", In: tr.Ints(in), Display: k == 1, Record: k == 0, Chunk: 0, Seed: rng.Int63(), Cls: cls})
+		}
+		// valid frames of the smallest and largest type numbers (values that mean something special inside the library:
+		// 0, 1, 2 and 4094, 4095 read as signed), between ordinary ones: each is a frame like any other
+		{
+			var in []byte
+			for _, t := range []int{1005, 0, 1, 2, 3, 1230, 4093, 4094, 4095, 1006} {
+				in = append(in, gen.Frame(rng, t, 6+rng.Intn(20), 0)...)
+			}
+			id++
+			w.Emit(appCase{ID: id, Mode: "c10", In: tr.Ints(in), Display: false, Record: true, Chunk: 0, Seed: rng.Int63(), Cls: "extreme type numbers"})
 		}
 		// a frame whose CRC is wrong in exactly one of its three bytes (each in turn), between valid frames
 		for k := 0; k < 3; k++ {
